@@ -366,6 +366,28 @@ class Stacked:
     @SlotDeco
     def meth(v):
         return {"v": v}
+
+
+def _push(acc, v):
+    acc.append(v)
+    return len(acc)
+
+
+def _fill(d, key, v):
+    d[key] = v
+    return d
+
+
+def push_shared(v):
+    # ONE list / dict object is handed to call after call and grows in between
+    acc = []
+    _push(acc, 1)
+    _push(acc, v)
+    d = {}
+    _fill(d, "a", 1)
+    _fill(d, "b", v)
+    _fill(d, 3, None)
+    return _push(acc, None)
 '''
 
 MUST_LOG_NESTED = ["make_fact.<locals>.fact"]
@@ -376,5 +398,5 @@ NESTING_CALLS = [
     "M.mutate_and_return([1])", "M.fill_dict({'k1': 0})", "list(M.gen_mutating([]))",
     "M.AbcShape.make(1)", "M.AbcSquare().area(2)", "M.AbcSquare.build(3)", "M.Colour.parse('x')", "M.Colour.RED.shade(1)",
     "M.ret_none_expr({'k': 1})", "M.ret_none_attr(M.Prop(None))", "list(M.gen_ret_none_expr({}))", "M.call_back(1)", "M.CALLBACKS['k']('s')", "list(M.gen_container_then_element(1))", "M.make_fact()(3)", "M.show(1)", "M.show('a')", "M.show(2.5)", "M.show(2)",
-    "M.slotted(1)", "M.slotted('a')", "M.Stacked.smake(1)", "M.Stacked.meth(2)",
+    "M.push_shared('a')", "M.push_shared([1])", "M.slotted(1)", "M.slotted('a')", "M.Stacked.smake(1)", "M.Stacked.meth(2)",
 ]
